@@ -154,6 +154,17 @@ def run(out, tier):
         for tag, g in GEOMS:
             for at in paint_combos(rng, ncombo):
                 jobs.append((tag, g, at))
+        # attribute against style declaration on every stroke property that decides visibility (the style
+        # declaration wins), with and without a fill: exhaustive over the geometry catalogue
+        for tag, g in GEOMS:
+            for fill in ([["fill", "none", 0]], [["fill", "none", 1]], []):
+                for pairs in ([["stroke-width", 0, 0], ["stroke-width", 1, 1]], [["stroke-width", 1, 0], ["stroke-width", 0, 1]],
+                              [["stroke", "none", 0], ["stroke", "blue", 1]], [["stroke", "blue", 0], ["stroke", "none", 1]],
+                              [["stroke-opacity", -1, 0], ["stroke-opacity", 1, 1]], [["stroke-opacity", 1, 0], ["stroke-opacity", -1, 1]],
+                              [["opacity", -1, 0], ["opacity", 1, 1]], [["opacity", 1, 0], ["opacity", -1, 1]],
+                              [["display", "none", 0], ["display", "inline", 1]], [["display", "inline", 0], ["display", "none", 1]]):
+                    base = [] if pairs[0][0] == "stroke" else [["stroke", "blue", 0]]
+                    jobs.append((tag, g, fill + base + pairs))
         recs = common.pmap(shape_job, jobs, chunksize=64)
         meta = [("shape", shape_doc([j])) for j in jobs]
         ndoc = 600 if tier == "quick" else 12000
